@@ -1,14 +1,566 @@
-//! C02 — not implemented yet (stub).
-use crate::report::{Cfg, Meta, Report};
+//! C02 — a proof binds to its statement; altered statements or proofs are rejected.
+//!
+//! Fault injection at the `verify()` boundary: from a pool of honest (program, inputs, outputs,
+//! proof) tuples, every single-field alteration of the statement, byte-level corruption of every
+//! region of the serialised proof, hash-tag relabelling and honest proofs produced under
+//! non-accepted options must make `from_bytes` or `verify` return an error — never acceptance,
+//! never a panic.
+
+use crate::case::{AsmOutcome, Case, ExecOutcome};
+use crate::gen::{gen_case, GenCfg};
+use crate::pv::{self, ProveOutcome, VerifyOutcome, OPTION_NAMES};
+use crate::report::{merge_all, Cfg, Meta, Report};
+use crate::util::{catch, hex, par_map, rng_for, Rng8, P};
+use miden::{ExecutionProof, HashFunction, ProvingOptions, StackOutputs};
+use processor::{Digest, Kernel, ProgramInfo, StackInputs};
+use rand::Rng;
+use serde_json::{json, Value};
+use vm_core::{Felt, FieldElement, StarkField};
+use winter_air::FieldExtension;
+use winter_utils::{Deserializable, Serializable};
 
 pub fn meta() -> Meta {
-    Meta { level: "exploration", rule: "stub".into(), assumptions: vec![] }
+    Meta {
+        level: "fault_enumeration",
+        rule: "each evaluation = one single alteration (of the program hash, kernel, a stack input, a stack output / overflow element / overflow address, built through constructors, stack_mut and crafted bytes; a bit flip, byte substitution, truncation or extension in a region of the proof bytes; a relabelled hash tag; an honest proof made with non-accepted options) applied to an honest tuple that was first checked to verify, then submitted to ExecutionProof::from_bytes + miden::verify; distinct = distinct (alteration kind, proof region or field, option set, deep stack?)".into(),
+        assumptions: vec![
+            "binding of honest proofs under single alterations; cryptographic soundness against adaptive provers is not observable".into(),
+            "byte alterations that decode to the identical proof object (trailing bytes ignored by the reader) and u64 aliases v+p of the same field element are equivalent statements/proofs, counted separately, not violations".into(),
+        ],
+    }
 }
 
-pub fn run(_cfg: &Cfg) -> Report {
-    let mut rep = Report::new();
-    rep.inconclusive("not-implemented");
+pub struct Honest {
+    pub case: Case,
+    pub oi: usize,
+    pub info: ProgramInfo,
+    pub si: StackInputs,
+    pub so: StackOutputs,
+    pub proof_bytes: Vec<u8>,
+    /// (name, start, end) regions of proof_bytes
+    pub regions: Vec<(String, usize, usize)>,
+}
+
+fn ser_len<T: Serializable>(t: &T) -> usize {
+    let mut v = vec![];
+    t.write_into(&mut v);
+    v.len()
+}
+
+fn region_map(proof: &ExecutionProof, total: usize) -> Vec<(String, usize, usize)> {
+    let p = &proof.proof;
+    let mut out = vec![("hash-tag".to_string(), 0usize, 1usize)];
+    let mut off = 1;
+    let mut add = |name: &str, len: usize, off: &mut usize| {
+        out.push((name.to_string(), *off, *off + len));
+        *off += len;
+    };
+    add("context", ser_len(&p.context), &mut off);
+    add("num-unique-queries", 1, &mut off);
+    add("commitments", ser_len(&p.commitments), &mut off);
+    for (i, q) in p.trace_queries.iter().enumerate() {
+        add(&format!("trace-queries-{i}"), ser_len(q), &mut off);
+    }
+    add("constraint-queries", ser_len(&p.constraint_queries), &mut off);
+    add("ood-frame", ser_len(&p.ood_frame), &mut off);
+    add("fri-proof", ser_len(&p.fri_proof), &mut off);
+    add("pow-nonce", 8, &mut off);
+    if off != total {
+        // layout assumption broken: fall back to a single region so nothing is mislabelled
+        return vec![("hash-tag".into(), 0, 1), ("proof".into(), 1, total)];
+    }
+    out
+}
+
+pub fn make_honest(case: &Case, oi: usize, rep: &mut Report) -> Option<Honest> {
+    let prog = match case.assemble() {
+        AsmOutcome::Ok(p) => p,
+        _ => return None,
+    };
+    let trace = match case.execute(&prog) {
+        ExecOutcome::Ok(t) => t,
+        _ => return None,
+    };
+    use winter_prover::Trace;
+    if trace.length() > 1024 {
+        return None;
+    }
+    drop(trace);
+    let (so, proof) = match pv::prove(case, &prog, pv::options(oi)) {
+        ProveOutcome::Ok(o, p) => (o, p),
+        _ => {
+            rep.count("pool", "prove-failed(C01's business)");
+            return None;
+        }
+    };
+    let bytes = proof.to_bytes();
+    let regions = region_map(&proof, bytes.len());
+    let info = ProgramInfo::from((*prog).clone());
+    let si = case.stack_inputs();
+    // sanity: the unaltered tuple must verify, otherwise the oracle would be vacuous
+    match pv::verify(info.clone(), si.clone(), so.clone(), ExecutionProof::from_bytes(&bytes).ok()?) {
+        VerifyOutcome::Ok(_) => {}
+        _ => {
+            rep.count("pool", "honest-rejected(C01's business)");
+            return None;
+        }
+    }
+    rep.count("pool", OPTION_NAMES[oi]);
+    Some(Honest { case: case.clone(), oi, info, si, so, proof_bytes: bytes, regions })
+}
+
+struct Ctx<'a> {
+    h: &'a Honest,
+    rep: &'a mut Report,
+}
+
+impl<'a> Ctx<'a> {
+    fn deep(&self) -> bool {
+        self.h.so.stack().len() > 16 || self.h.case.stack.len() > 16
+    }
+
+    fn submit(&mut self, kind: &str, field: &str, info: ProgramInfo, si: StackInputs, so: StackOutputs, proof_bytes: &[u8], detail: Value) {
+        // an "alteration" that denotes the very same statement and proof is not an alteration
+        {
+            let h = self.h;
+            let same_so = so.stack().iter().map(|v| v % P).eq(h.so.stack().iter().map(|v| v % P))
+                && so.overflow_addrs().iter().map(|v| v % P).eq(h.so.overflow_addrs().iter().map(|v| v % P));
+            let same = same_so
+                && si.values() == h.si.values()
+                && info.program_hash() == h.info.program_hash()
+                && info.kernel().proc_hashes() == h.info.kernel().proc_hashes()
+                && proof_bytes == &h.proof_bytes[..];
+            if same {
+                self.rep.count("equivalent", &format!("same-statement-after-{kind}/{field}"));
+                return;
+            }
+        }
+        let key = format!("{kind}|{field}|{}|{}", OPTION_NAMES[self.h.oi], self.deep());
+        self.rep.eval(&key);
+        self.rep.count("alteration_kind", kind);
+        let wit = json!({"kind": "tamper", "case": self.h.case.to_json(), "option_set": OPTION_NAMES[self.h.oi], "alteration": kind, "field": field, "detail": detail});
+        let proof = match catch(|| ExecutionProof::from_bytes(proof_bytes)) {
+            Ok(Ok(p)) => p,
+            Ok(Err(_)) => {
+                self.rep.count("outcome", "decode-err");
+                return;
+            }
+            Err(p) => {
+                self.rep.count("outcome", "decode-panic");
+                self.rep.violation(format!("panic/{}", p.site_key()), format!("ExecutionProof::from_bytes panicked on altered bytes ({kind}/{field}): {} at {}", p.message, p.location), wit);
+                return;
+            }
+        };
+        match pv::verify(info, si, so, proof) {
+            VerifyOutcome::Err(_) => self.rep.count("outcome", "verify-err"),
+            VerifyOutcome::Ok(_) => {
+                self.rep.count("outcome", "ACCEPTED");
+                self.rep.violation(format!("accepted/{kind}/{field}"), format!("verify accepted an altered tuple: {kind}/{field} {detail}"), wit);
+            }
+            VerifyOutcome::Panic(p) => {
+                self.rep.count("outcome", "verify-panic");
+                self.rep.violation(format!("panic/{}", p.site_key()), format!("verify panicked on altered tuple ({kind}/{field}): {} at {}", p.message, p.location), wit);
+            }
+        }
+    }
+
+    fn statement(&mut self, rng: &mut Rng8, other_hash: Digest) {
+        let h = self.h;
+        let pb = &h.proof_bytes;
+        let hash: [Felt; 4] = (*h.info.program_hash()).into();
+        let kernel = h.info.kernel().clone();
+        // 1. program hash
+        for i in 0..4 {
+            let mut w = hash;
+            w[i] += Felt::ONE;
+            self.submit("program-hash", &format!("elem{i}+1"), ProgramInfo::new(w.into(), kernel.clone()), h.si.clone(), h.so.clone(), pb, json!(i));
+        }
+        let rnd: [Felt; 4] = [Felt::new(rng.gen::<u64>() % P), Felt::new(rng.gen::<u64>() % P), Felt::new(rng.gen::<u64>() % P), Felt::new(rng.gen::<u64>() % P)];
+        self.submit("program-hash", "random", ProgramInfo::new(rnd.into(), kernel.clone()), h.si.clone(), h.so.clone(), pb, json!(null));
+        if other_hash != *h.info.program_hash() {
+            self.submit("program-hash", "other-valid-program", ProgramInfo::new(other_hash, kernel.clone()), h.si.clone(), h.so.clone(), pb, json!(null));
+        }
+        // 2. kernel
+        let procs: Vec<Digest> = kernel.proc_hashes().to_vec();
+        let mut variants: Vec<(&str, Vec<Digest>)> = vec![];
+        let mut added = procs.clone();
+        added.push(rnd.into());
+        variants.push(("add-proc", added));
+        if !procs.is_empty() {
+            variants.push(("drop-proc", procs[1..].to_vec()));
+            let mut repl = procs.clone();
+            repl[0] = other_hash;
+            variants.push(("replace-proc", repl));
+        }
+        for (name, v) in variants {
+            if let Ok(k) = Kernel::new(&v) {
+                if k.proc_hashes() != kernel.proc_hashes() {
+                    self.submit("kernel", name, ProgramInfo::new(*h.info.program_hash(), k), h.si.clone(), h.so.clone(), pb, json!(null));
+                }
+            }
+        }
+        // kernel through crafted bytes: program info = hash || kernel(len u8? + digests)
+        {
+            let mut b = vec![];
+            h.info.write_into(&mut b);
+            for _ in 0..4 {
+                let mut m = b.clone();
+                let i = rng.gen_range(0..m.len());
+                m[i] ^= 1 << rng.gen_range(0..8);
+                if let Ok(Ok(pi)) = catch(|| ProgramInfo::read_from_bytes(&m)) {
+                    if pi.program_hash() != h.info.program_hash() || pi.kernel().proc_hashes() != kernel.proc_hashes() {
+                        self.submit("program-info-bytes", "bitflip", pi, h.si.clone(), h.so.clone(), pb, json!(hex(&m)));
+                    }
+                }
+            }
+        }
+        // 3. stack inputs (values() is top-first)
+        let vals: Vec<Felt> = h.si.values().to_vec();
+        let mk = |top_first: &[Felt]| {
+            let mut v = top_first.to_vec();
+            v.reverse();
+            StackInputs::new(v)
+        };
+        for i in 0..vals.len() {
+            let mut v = vals.clone();
+            v[i] += Felt::ONE;
+            let f = if i < 16 { "top16" } else { "overflow" };
+            self.submit("stack-input", &format!("{f}+1"), h.info.clone(), mk(&v), h.so.clone(), pb, json!(i));
+        }
+        {
+            let mut v = vals.clone();
+            v.push(Felt::new(7));
+            self.submit("stack-input", "append-nonzero", h.info.clone(), mk(&v), h.so.clone(), pb, json!(null));
+            let mut v = vals.clone();
+            v.push(Felt::ZERO);
+            self.submit("stack-input", "append-zero", h.info.clone(), mk(&v), h.so.clone(), pb, json!(null));
+            if !vals.is_empty() {
+                let mut v = vals.clone();
+                v.pop();
+                self.submit("stack-input", "drop-deepest", h.info.clone(), mk(&v), h.so.clone(), pb, json!(null));
+                let mut v = vals.clone();
+                v.remove(0);
+                self.submit("stack-input", "drop-top", h.info.clone(), mk(&v), h.so.clone(), pb, json!(null));
+            }
+        }
+        // 4. stack outputs
+        let stack: Vec<u64> = h.so.stack().to_vec();
+        let addrs: Vec<u64> = h.so.overflow_addrs().to_vec();
+        for i in 0..stack.len() {
+            let mut s = stack.clone();
+            s[i] = (s[i] + 1) % P;
+            let f = if i < 16 { "top16" } else { "overflow-elem" };
+            if let Ok(so) = StackOutputs::new(s, addrs.clone()) {
+                self.submit("stack-output/new", &format!("{f}+1"), h.info.clone(), h.si.clone(), so, pb, json!(i));
+            }
+            // through stack_mut
+            let mut so = h.so.clone();
+            so.stack_mut()[i] = (stack[i] + 1) % P;
+            self.submit("stack-output/stack_mut", &format!("{f}+1"), h.info.clone(), h.si.clone(), so, pb, json!(i));
+            // non-canonical alias of the SAME element: equivalent statement
+            if stack[i] < (u64::MAX - P) {
+                let mut so = h.so.clone();
+                so.stack_mut()[i] = stack[i] + P;
+                self.rep.count("equivalent", "statement-alias-v+p");
+                let _ = so;
+            }
+        }
+        for i in 0..addrs.len() {
+            let mut a = addrs.clone();
+            a[i] = (a[i] + 1) % P;
+            let f = if i == 0 { "overflow-prev-addr" } else { "overflow-addr" };
+            if let Ok(so) = StackOutputs::new(stack.clone(), a) {
+                self.submit("stack-output/new", &format!("{f}+1"), h.info.clone(), h.si.clone(), so, pb, json!(i));
+            }
+        }
+        // length changes / padding <-> non-zero
+        if stack.len() > 16 {
+            // drop the deepest overflow element (+ its address)
+            let mut s = stack.clone();
+            s.pop();
+            let mut a = addrs.clone();
+            a.pop();
+            if s.len() == 16 {
+                a.clear();
+            }
+            if let Ok(so) = StackOutputs::new(s, a) {
+                self.submit("stack-output/new", "drop-overflow-elem", h.info.clone(), h.si.clone(), so, pb, json!(null));
+            }
+        } else {
+            // claim one extra overflow element
+            let mut s = stack.clone();
+            s.push(5);
+            if let Ok(so) = StackOutputs::new(s, vec![0, 3]) {
+                self.submit("stack-output/new", "add-overflow-elem", h.info.clone(), h.si.clone(), so, pb, json!(null));
+            }
+        }
+        // crafted bytes for the outputs (third public way to build the statement)
+        {
+            let mut b = vec![];
+            h.so.write_into(&mut b);
+            for _ in 0..12 {
+                let mut m = b.clone();
+                let i = rng.gen_range(0..m.len());
+                m[i] ^= 1 << rng.gen_range(0..8);
+                match catch(|| StackOutputs::read_from_bytes(&m)) {
+                    Ok(Ok(so)) => {
+                        let same = so.stack().iter().map(|v| v % P).collect::<Vec<_>>() == stack
+                            && so.overflow_addrs().iter().map(|v| v % P).collect::<Vec<_>>() == addrs
+                            && so.stack().iter().all(|v| *v < P);
+                        if same {
+                            self.rep.count("equivalent", "statement-bytes-same-elements");
+                            continue;
+                        }
+                        self.submit("stack-output/bytes", "bitflip", h.info.clone(), h.si.clone(), so, pb, json!(hex(&m)));
+                    }
+                    Ok(Err(_)) => self.rep.count("outcome", "statement-decode-err"),
+                    Err(p) => self.rep.violation(
+                        format!("statement-decode-panic/{}", p.site_key()),
+                        format!("StackOutputs::read_from_bytes panicked: {}", p.message),
+                        json!({"kind": "bytes", "decoder": "StackOutputs", "hex": hex(&m)}),
+                    ),
+                }
+            }
+            // truncated output statement: fewer than 16 elements
+            let mut short = vec![];
+            short.extend_from_slice(&3u32.to_le_bytes());
+            for v in &stack[..3] {
+                short.extend_from_slice(&v.to_le_bytes());
+            }
+            short.extend_from_slice(&0u32.to_le_bytes());
+            if let Ok(Ok(so)) = catch(|| StackOutputs::read_from_bytes(&short)) {
+                self.submit("stack-output/bytes", "short-stack", h.info.clone(), h.si.clone(), so, pb, json!(hex(&short)));
+            }
+        }
+    }
+
+    /// Deterministic enumeration of the proof *context* (trace layout, trace length, field modulus,
+    /// proof options): every byte x every value goes through `from_bytes`; a fixed value subset
+    /// per byte additionally goes through `verify`. This makes the set of reachable panic sites of
+    /// the parameter-validation code independent of the seed.
+    fn context_exhaustive(&mut self) {
+        let h = self.h;
+        let pb = &h.proof_bytes;
+        let (start, end) = match h.regions.iter().find(|r| r.0 == "context") {
+            Some(r) => (r.1, r.2),
+            None => return,
+        };
+        for i in start..end.min(start + 64) {
+            let orig = pb[i];
+            let mut verify_vals: Vec<u8> = vec![0, 1, 2, 3, 4, 7, 8, 15, 16, 31, 32, 63, 64, 127, 128, 255, orig.wrapping_add(1), orig.wrapping_sub(1)];
+            for b in 0..8 {
+                verify_vals.push(orig ^ (1 << b));
+            }
+            for v in 0..=255u8 {
+                if v == orig {
+                    continue;
+                }
+                let mut m = pb.clone();
+                m[i] = v;
+                if verify_vals.contains(&v) {
+                    self.submit("proof-context-exhaustive", "context", h.info.clone(), h.si.clone(), h.so.clone(), &m, json!({"offset": i, "value": v}));
+                } else {
+                    self.rep.evals(1);
+                    self.rep.count("alteration_kind", "proof-context-decode-only");
+                    if let Err(p) = catch(|| ExecutionProof::from_bytes(&m).is_ok()) {
+                        let wit = json!({"kind": "tamper", "case": h.case.to_json(), "option_set": OPTION_NAMES[h.oi], "alteration": "proof-context-exhaustive", "detail": {"offset": i, "value": v}});
+                        self.rep.violation(format!("panic/{}", p.site_key()), format!("from_bytes/security_level panicked with context byte {i} = {v}: {} at {}", p.message, p.location), wit);
+                    }
+                }
+            }
+        }
+    }
+
+    fn proof_bytes(&mut self, rng: &mut Rng8, per_region: usize, truncations: usize) {
+        let h = self.h;
+        let pb = &h.proof_bytes;
+        let canon = |b: &[u8]| -> Option<Vec<u8>> { catch(|| ExecutionProof::from_bytes(b).ok().map(|p| p.to_bytes())).ok().flatten() };
+        for (name, start, end) in h.regions.clone() {
+            if end <= start {
+                continue;
+            }
+            let rname = if name.starts_with("trace-queries") { "trace-queries".to_string() } else { name.clone() };
+            for k in 0..per_region {
+                let mut m = pb.clone();
+                let i = rng.gen_range(start..end);
+                if k % 3 == 2 {
+                    let old = m[i];
+                    while m[i] == old {
+                        m[i] = rng.gen();
+                    }
+                } else {
+                    m[i] ^= 1 << rng.gen_range(0..8);
+                }
+                if canon(&m).as_deref() == Some(&pb[..]) {
+                    self.rep.count("equivalent", "proof-bytes-decode-identically");
+                    continue;
+                }
+                self.submit(if k % 3 == 2 { "proof-byte-subst" } else { "proof-bitflip" }, &rname, h.info.clone(), h.si.clone(), h.so.clone(), &m, json!({"offset": i}));
+            }
+            // truncation exactly at the region boundary
+            if start > 0 {
+                self.submit("proof-truncate", &format!("at-{rname}"), h.info.clone(), h.si.clone(), h.so.clone(), &pb[..start], json!({"len": start}));
+            }
+        }
+        for _ in 0..truncations {
+            let n = rng.gen_range(0..pb.len());
+            self.submit("proof-truncate", "random-offset", h.info.clone(), h.si.clone(), h.so.clone(), &pb[..n], json!({"len": n}));
+        }
+        // appended garbage: equivalent if it decodes to the identical object
+        let mut ext = pb.clone();
+        ext.extend_from_slice(&[0xAB; 5]);
+        if canon(&ext).as_deref() == Some(&pb[..]) {
+            self.rep.count("equivalent", "proof-trailing-bytes-ignored");
+        } else {
+            self.submit("proof-extend", "trailing-garbage", h.info.clone(), h.si.clone(), h.so.clone(), &ext, json!(null));
+        }
+        // hash tag relabelling
+        for tag in [0u8, 1, 2, 3, 0x7f, 0xff] {
+            if tag != pb[0] {
+                let mut m = pb.clone();
+                m[0] = tag;
+                self.submit("hash-tag-relabel", &format!("to-{tag}"), h.info.clone(), h.si.clone(), h.so.clone(), &m, json!(tag));
+            }
+        }
+    }
+}
+
+/// Honest proofs generated under options outside the accepted sets must be refused.
+fn weak_options(case: &Case, rng: &mut Rng8, rep: &mut Report) {
+    let prog = match case.assemble() {
+        AsmOutcome::Ok(p) => p,
+        _ => return,
+    };
+    let so = match case.execute(&prog) {
+        ExecOutcome::Ok(t) => t.stack_outputs().clone(),
+        _ => return,
+    };
+    // (name, queries, blowup, grinding, ext, folding, remainder, hash)
+    let q = FieldExtension::Quadratic;
+    let c = FieldExtension::Cubic;
+    let grid: Vec<(&str, usize, usize, u32, FieldExtension, usize, usize, HashFunction)> = vec![
+        ("fewer-queries-96", 20, 8, 16, q, 8, 255, HashFunction::Blake3_192),
+        ("one-query-96", 1, 8, 16, q, 8, 255, HashFunction::Blake3_192),
+        ("lower-grinding-96", 27, 8, 0, q, 8, 255, HashFunction::Blake3_192),
+        ("other-folding-96", 27, 8, 16, q, 4, 255, HashFunction::Blake3_192),
+        ("other-remainder-96", 27, 8, 16, q, 8, 127, HashFunction::Blake3_192),
+        ("96-params-with-blake256-tag", 27, 8, 16, q, 8, 255, HashFunction::Blake3_256),
+        ("128-params-with-blake192-tag", 27, 16, 21, c, 8, 255, HashFunction::Blake3_192),
+        ("regular-params-with-rpo-tag", 27, 8, 16, q, 8, 255, HashFunction::Rpo256),
+        ("recursive-params-with-blake-tag", 27, 8, 16, q, 4, 7, HashFunction::Blake3_192),
+        ("fewer-queries-rpo", 10, 8, 16, q, 4, 7, HashFunction::Rpo256),
+        ("lower-grinding-128", 27, 16, 10, c, 8, 255, HashFunction::Blake3_256),
+        ("quadratic-for-128", 27, 16, 21, q, 8, 255, HashFunction::Blake3_256),
+        ("more-queries-96", 40, 8, 16, q, 8, 255, HashFunction::Blake3_192),
+    ];
+    let pick = rng.gen_range(0..grid.len());
+    for (i, g) in grid.iter().enumerate() {
+        if i != pick && i != (pick + 5) % grid.len() && i != (pick + 9) % grid.len() {
+            continue;
+        }
+        let opts = match catch(|| ProvingOptions::new(g.1, g.2, g.3, g.4, g.5, g.6, g.7)) {
+            Ok(o) => o,
+            Err(_) => {
+                rep.count("weak_options", &format!("{}:options-refused", g.0));
+                continue;
+            }
+        };
+        let proof = match pv::prove(case, &prog, opts) {
+            ProveOutcome::Ok(_, p) => p,
+            _ => {
+                rep.count("weak_options", &format!("{}:prover-refused", g.0));
+                continue;
+            }
+        };
+        rep.eval(&format!("weak-options|{}", g.0));
+        rep.count("alteration_kind", "non-accepted-options");
+        rep.count("weak_options", g.0);
+        let info = ProgramInfo::from((*prog).clone());
+        let bytes = proof.to_bytes();
+        let wit = json!({"kind": "weak-options", "case": case.to_json(), "options": g.0});
+        match catch(|| ExecutionProof::from_bytes(&bytes)) {
+            Ok(Ok(p)) => match pv::verify(info, case.stack_inputs(), so.clone(), p) {
+                VerifyOutcome::Err(_) => rep.count("outcome", "verify-err"),
+                VerifyOutcome::Ok(l) => rep.violation(format!("accepted/non-accepted-options/{}", g.0), format!("verify accepted (level {l}) an honest proof made with options '{}'", g.0), wit),
+                VerifyOutcome::Panic(p) => rep.violation(format!("panic/{}", p.site_key()), p.message, wit),
+            },
+            Ok(Err(_)) => rep.count("outcome", "decode-err"),
+            Err(p) => rep.violation(format!("panic/{}", p.site_key()), p.message, wit),
+        }
+    }
+}
+
+fn small_case(rng: &mut Rng8, i: usize) -> Case {
+    let size = rng.gen_range(2..12);
+    let mut gc = GenCfg::random(rng, size);
+    gc.deep_inputs = i % 2 == 0;
+    gc.deep_outputs = i % 3 != 0;
+    gc.kernel = i % 4 == 1;
+    gen_case(rng, &gc)
+}
+
+pub fn run(cfg: &Cfg) -> Report {
+    let shards = 32;
+    let per = cfg.n(2, 16);
+    let reports = par_map(shards, |sh| {
+        let mut rng = rng_for(cfg.seed, "C02", sh as u64);
+        let mut rep = Report::new();
+        let mut pool: Vec<Honest> = vec![];
+        let mut tries = 0;
+        while pool.len() < per && tries < per * 6 {
+            tries += 1;
+            let case = small_case(&mut rng, tries + sh);
+            if let Some(h) = make_honest(&case, (sh + pool.len()) % 4, &mut rep) {
+                pool.push(h);
+            }
+        }
+        let per_region = cfg.tier.pick(8, 40);
+        for i in 0..pool.len() {
+            let other = *pool[(i + 1) % pool.len()].info.program_hash();
+            let mut ctx = Ctx { h: &pool[i], rep: &mut rep };
+            ctx.statement(&mut rng, other);
+            ctx.proof_bytes(&mut rng, per_region, per_region * 2);
+            // one proof per option set gets the deterministic context enumeration (shards 0..4 quick)
+            if i == 0 && (sh < 4 || cfg.tier == crate::report::Tier::Thorough && sh < 16) {
+                ctx.context_exhaustive();
+            }
+            if rep.samples.len() < 3 {
+                let h = &pool[i];
+                rep.sample(json!({"src": crate::report::truncate(&h.case.src, 160), "option_set": OPTION_NAMES[h.oi], "proof_bytes": h.proof_bytes.len(), "regions": h.regions.iter().map(|r| format!("{}:{}..{}", r.0, r.1, r.2)).collect::<Vec<_>>()}));
+            }
+        }
+        if sh % 2 == 0 {
+            let case = small_case(&mut rng, sh);
+            weak_options(&case, &mut rng, &mut rep);
+        }
+        rep
+    });
+    let mut rep = merge_all(reports);
+    for o in OPTION_NAMES {
+        rep.floor(rep.get_count("pool", o) >= 3, &format!("pool-has-3-{o}-proofs"));
+    }
+    for k in ["program-hash", "kernel", "stack-input", "stack-output/new", "stack-output/stack_mut", "stack-output/bytes", "proof-bitflip", "proof-truncate", "hash-tag-relabel", "non-accepted-options"] {
+        rep.floor(rep.get_count("alteration_kind", k) >= 5, &format!("alteration-{k}-5x"));
+    }
     rep
 }
 
-pub fn replay(_v: &serde_json::Value, _rep: &mut Report) {}
+pub fn replay(v: &Value, rep: &mut Report) {
+    // re-run the whole alteration battery on the witness program under its option set
+    if let Some(case) = v.get("case").and_then(Case::from_json) {
+        let oi = v.get("option_set").and_then(|o| o.as_str()).and_then(|o| OPTION_NAMES.iter().position(|n| *n == o)).unwrap_or(0);
+        let mut rng = rng_for(0, "C02-replay", 0);
+        if v.get("kind").and_then(|k| k.as_str()) == Some("weak-options") {
+            for _ in 0..8 {
+                weak_options(&case, &mut rng, rep);
+            }
+            return;
+        }
+        if let Some(h) = make_honest(&case, oi, rep) {
+            let other = *h.info.program_hash();
+            let mut ctx = Ctx { h: &h, rep };
+            ctx.statement(&mut rng, other);
+            ctx.proof_bytes(&mut rng, 60, 100);
+        }
+    }
+}
